@@ -11,3 +11,6 @@ func (s *StepVerboseSwitchable) VerifParent() (Step, bool) { return s.parent, s.
 
 // VerifSubSteps exposes the sub-steps of an amalgamated step.
 func (s *StepAmalgamated) VerifSubSteps() []Step { return s.steps }
+
+// VerifValidator exposes the validator function of a rule step.
+func (s *StepOutputValidationRule) VerifValidator() any { return s.validator }
